@@ -347,7 +347,7 @@ theorem serve_class_tr (e : Env) (r : Req) (prx : Gen.TrC19.S_websvc_linkedIPPro
         sh et rid (String.ofList r.path) = some tr ∧
       (names tr).getLast? = some (match serve e r with
         | .notFound => "NotFound" | .robots => "serveRobotsDisallow" | .err500 => "Error"
-        | .proxied _ _ => "ServeHTTP") := by
+        | .proxyErr => "ServeHTTP" | .proxied _ _ => "ServeHTTP") := by
   unfold Gen.TrC19.serveHTTP
   simp only [shouldProxy_tr, String.toList_ofList, serve, serveV]
   have hrob : (String.ofList r.path = "/robots.txt") = (r.path = robotsPath) := by
@@ -359,7 +359,9 @@ theorem serve_class_tr (e : Env) (r : Req) (prx : Gen.TrC19.S_websvc_linkedIPPro
   · cases h2 : sh.2 with
     | none =>
       obtain ⟨ip, hip⟩ := Option.isSome_iff_exists.mp (hsh.mp h2)
-      simp [names, hip]
+      simp only [hip]
+      generalize isPrint _ = pr
+      cases pr <;> simp [names]
     | some x =>
       have : splitHost r.remote = none := by
         cases h : splitHost r.remote with
@@ -372,18 +374,24 @@ theorem serve_class_tr (e : Env) (r : Req) (prx : Gen.TrC19.S_websvc_linkedIPPro
 /-- `Rewrite`: the target URL is set first and `Out.Host` after it, to the configured host; every
 header read from the inbound request (`In.Header.Get`) is set on the outbound request under the same
 name with the value read, and these are `X-Connecting-Ip` and `X-Request-Id`; `X-Connecting-Ip` is
-touched by no other operation; the user agent is ours; nothing is deleted.  (`g1`, `g2` are the
-results of the first and second `Get`.) -/
+touched by no other operation; the user agent is ours; the only deletions are the last two
+operations, `Del Connection` and `Del Upgrade` (third `fix:` commit: no protocol switch is passed on
+to the backend), and nothing sets these two headers.  (`g1`, `g2` are the results of the first and
+second `Get`.) -/
 theorem rewrite_resets_proxy_headers (host ua g1 g2 : String) :
     let tr := Gen.TrC19.rewrite host ua g1 g2
     let gets := (tr.filter (·.1 == "Get")).map (·.2)
     (names tr).idxOf "SetURL" < (names tr).idxOf "Host=" ∧ ("Host=", [host]) ∈ tr ∧
     gets.length = 2 ∧ (∀ (i : Nat) (n : String), gets[i]? = some [n] → ("Set", [n, [g1, g2][i]!]) ∈ tr) ∧
     ["X-Connecting-Ip"] ∈ gets ∧ ["X-Request-Id"] ∈ gets ∧
-    (opsOn "X-Connecting-Ip" tr).length = 1 ∧ ("Set", ["User-Agent", ua]) ∈ tr ∧ "Del" ∉ names tr := by
+    (opsOn "X-Connecting-Ip" tr).length = 1 ∧ ("Set", ["User-Agent", ua]) ∈ tr ∧
+    tr.filter (·.1 == "Del") = [("Del", ["Connection"]), ("Del", ["Upgrade"])] ∧
+    tr.drop (tr.length - 2) = [("Del", ["Connection"]), ("Del", ["Upgrade"])] ∧
+    opsOn "Connection" tr = [("Del", ["Connection"])] ∧ opsOn "Upgrade" tr = [("Del", ["Upgrade"])] := by
   unfold Gen.TrC19.rewrite
   simp only [names, opsOn]
-  refine ⟨by simp [List.idxOf, List.findIdx, List.findIdx.go], by simp, by simp, ?_, by simp, by simp, by simp, by simp, by simp⟩
+  refine ⟨by simp [List.idxOf, List.findIdx, List.findIdx.go], by simp, by simp, ?_, by simp, by simp, by simp, by simp,
+    by simp, by simp, by simp, by simp⟩
   intro i n
   match i with
   | 0 => simp; intro h; simp [← h]
